@@ -56,19 +56,19 @@ func init() {
 	})
 	register(&Property{
 		ID:          "C36",
-		Explanation: "RI/RJ: over the module functions reachable (VTA call graph) from the query bodies, task.run and Canonicalize, no clock/random/environment primitive is called outside the reviewed stopwatch, and every map / sync.Map iteration is order-insensitive by idiom or reviewed (diagnostics pushed in map order are sorted by Canonicalize before being observable). RC4: Run returns a report only after Canonicalize and nothing is appended afterwards. RU: every field of report.Diagnostic must be a sort key of Canonicalize (directly, or through Primary()); un-keyed observable fields make the canonical order depend on the input order and are reported. RU2: on every path of Canonicalize each mutation of r.Diagnostics besides the sort (assignment, marking, slices.DeleteFunc, function literal or same-package callee doing so) is preceded by the sort, so which duplicate survives is decided over the sorted slice. RU3: inside package incremental a task's report is handed out by address only in (*Task).Report and otherwise written only on the leader-only section of task.run (success edge of result.CompareAndSwap(nil, …)); *Task values bound to a task are created only there — one writer per task report on every schedule.",
+		Explanation: "RI/RJ: over the module functions reachable (VTA call graph) from the query bodies, task.run and Canonicalize, no clock/random/environment primitive is called outside the reviewed stopwatch, and every map / sync.Map iteration is order-insensitive by idiom or reviewed (diagnostics pushed in map order are sorted by Canonicalize before being observable). RC4: Run returns a report only after Canonicalize and nothing is appended afterwards. RU: every field of report.Diagnostic must be a sort key of Canonicalize (directly, or through Primary()); un-keyed observable fields make the canonical order depend on the input order and are reported. RU2: on every path of Canonicalize each mutation of r.Diagnostics besides the sort (assignment, marking, slices.DeleteFunc, function literal or same-package callee doing so) is preceded by the sort, so which duplicate survives is decided over the sorted slice. RU3: inside package incremental a task's report is handed out by address only in (*Task).Report and otherwise written only on the leader-only section of task.run (success edge of result.CompareAndSwap(nil, …)); *Task values bound to a task are created only there — one writer per task report on every schedule. RU4 also rejects key functions that merge two fields through a selecting call (cmp.Or). RC6 (unconditional dependency edges) is part of this check because Run's report collection walks them.",
 		NotDecided:  "idempotence of de-duplication; determinism of the diagnostics each query produces",
 		Rules:       []func(*World){rc4Incremental, ruCanonicalize, ru2SortBeforeDedup, ru3ReportSingleWriter, ru4KeysUnconditional, ru5CollectionReadOnly, riIncremental, rcIncremental},
 	})
 	register(&Property{
 		ID:          "C37",
-		Explanation: "RT: the set of compilerpb.{Report,Report_File,Diagnostic,Diagnostic_Annotation,Diagnostic_Edit} fields written by ToProto equals the set read by AppendFromProto and covers every field of the messages; every field of report.Diagnostic/snippet/Edit is carried (except the reviewed sortOrder); the Report_File record is produced by (*source.File).Path/Text (resolved callees), the inverse of the decoder's source.NewFile(path, text); the decoder's span validation is evaluated on all (start,end,len) triples of a small model and must reject exactly start>end or end>len; its level switch accepts every Level constant.",
+		Explanation: "RT: the set of compilerpb.{Report,Report_File,Diagnostic,Diagnostic_Annotation,Diagnostic_Edit} fields written by ToProto equals the set read by AppendFromProto and covers every field of the messages; every field of report.Diagnostic/snippet/Edit is carried (except the reviewed sortOrder); the Report_File record is produced by (*source.File).Path/Text (resolved callees), the inverse of the decoder's source.NewFile(path, text); the decoder's span validation is evaluated on all (start,end,len) triples of a small model and must reject exactly start>end or end>len; its level switch accepts every Level constant. RT2: a sorted identity permutation is only read position by position (never indexed with a stored index). RT3: a scratch slice reset with [:0] in a loop is not stored without a copy.",
 		NotDecided:  "text/edit content equality (delegated to protobuf)",
 		Rules:       []func(*World){rtReport, rt2PermutationDirection, rt3ScratchNotStored},
 	})
 	register(&Property{
 		ID:          "C27",
-		Explanation: "RNC: no function of the experimental descriptor generator (experimental/fdp) narrows or sign-converts a 32/64-bit integer without dominating range guards (a default or number rendered through the wrong signedness differs from the stable compiler). RDV: the function of experimental/fdp that assigns FieldDescriptorProto.DefaultValue must render float defaults with a bit size that depends on the field (a `float` default is a 32-bit value; the stable compiler prints its shortest float32 form) and must look up an enum default by the name written (the ir value keeps only the number, which aliases share). RSB: the stable and the experimental validator report a canonical enum-value-name conflict only at points reached with the two values' numbers known to differ (branch-sensitive dataflow), so aliases are accepted by both. RS: the accept flag of ir.(*Session).Lower is computed by a comparison of Diagnostic.Level() with constants which, evaluated over the whole Level domain with go/constant, clears ok exactly for {ICE, Error}.",
+		Explanation: "RNC: no function of the experimental descriptor generator (experimental/fdp) narrows or sign-converts a 32/64-bit integer without dominating range guards (a default or number rendered through the wrong signedness differs from the stable compiler). RDV: the function of experimental/fdp that assigns FieldDescriptorProto.DefaultValue must render float defaults with a bit size that depends on the field (a `float` default is a 32-bit value; the stable compiler prints its shortest float32 form) and must look up an enum default by the name written (the ir value keeps only the number, which aliases share). RSB: the stable and the experimental validator report a canonical enum-value-name conflict only at points reached with the two values' numbers known to differ (branch-sensitive dataflow), so aliases are accepted by both. RS: the accept flag of ir.(*Session).Lower is computed by a comparison of Diagnostic.Level() with constants which, evaluated over the whole Level domain with go/constant, clears ok exactly for {ICE, Error}. RIX: the key of `range X[lo:]` is never used to index X itself.",
 		NotDecided:  "agreement of verdicts and descriptors between the two compilers (differential, value-level)",
 		Rules:       []func(*World){rsLower, rncFDP, rdvDefaultRendering, rsbEnumNameConflict, rfcFrameCountNotDropped, rixViewIndex},
 	})
@@ -116,7 +116,7 @@ func init() {
 	})
 	register(&Property{
 		ID:          "C29",
-		Explanation: "RV: in lexer.loop every path from an increment of lexer.badBytes to the function's end passes a flush (flushUnrecognized/keyword/push); badBytes is written only by loop and the flush helper. RV2: every `return false` of lexPrelude on non-empty input must have pushed tokens (today's bail-outs do not: known findings).",
+		Explanation: "RV: in lexer.loop every path from an increment of lexer.badBytes to the function's end passes a flush (flushUnrecognized/keyword/push); badBytes is written only by loop and the flush helper. RV2: every `return false` of lexPrelude on non-empty input must have pushed tokens (today's bail-outs do not: known findings). RV6: the dispatch predicate of each rune case implies that the callee's first peek-and-pop iteration consumes the rune (evaluated over a model of 150 runes with the unicode predicates). RV7: symbolic token-start accounting at the hand-overs from loop() to the token lexers (linear form over width(r), len(consumed text), constants must vanish).",
 		NotDecided:  "that pushed lengths sum to the cursor advance on every path (arithmetic); bracket fusion",
 		Rules:       []func(*World){rvLexer, rv3PreludeEncodingGate, rw3RuneErrorWidth, rv4ConsumedTextNotDropped, rv6DispatchImpliesConsumption, rv7TokenStartAccounting},
 	})
@@ -134,13 +134,13 @@ func init() {
 	})
 	register(&Property{
 		ID:          "C32",
-		Explanation: "RUD: a dimension (units) checker over experimental/source's location and inverseLocation. Inside the switch clause for length.Unit X the column is a quantity in X; range keys over strings, len, slice bounds and line offsets are quantities in bytes; utf16.RuneLen is in UTF-16 units. Every `x = e`, `x += e`, `x -= e` and `a ± b` whose sides both have a known unit must combine equal units (constants are polymorphic); a per-character step inside `range <string>` may only drive a quantity in runes. Both switches must have a clause for every length.Unit constant (computed from the package).",
+		Explanation: "RUD: a dimension (units) checker over experimental/source's location and inverseLocation. Inside the switch clause for length.Unit X the column is a quantity in X; range keys over strings, len, slice bounds and line offsets are quantities in bytes; utf16.RuneLen is in UTF-16 units. Every `x = e`, `x += e`, `x -= e` and `a ± b` whose sides both have a known unit must combine equal units (constants are polymorphic); a per-character step inside `range <string>` may only drive a quantity in runes. Both switches must have a clause for every length.Unit constant (computed from the package). RUD2: File.lines() appends the entry for the last line unconditionally; location/inverseLocation trim only the byte lines() splits on.",
 		NotDecided:  "the arithmetic itself (that the computed column/offset is the right number of the right unit), the line table, behaviour for offsets that are not on a character boundary; only the necessary condition that byte offsets are never combined with counts of another unit is decided",
 		Rules:       []func(*World){rudUnits, rud2LineTable},
 	})
 	register(&Property{
 		ID:          "C40",
-		Explanation: "RIK: key discipline of internal/interval. Both collections keep their entries in an ordered map keyed by the entry's End; every Set(k, e) of an *Entry must store it under its own End (Set(e.End, e) or Set(k, &Entry{End: k})), and the End of an *Entry is never assigned after construction (splitting moves Start and creates new entries), so an entry in the tree never sits under a stale key.",
+		Explanation: "RIK: key discipline of internal/interval. Both collections keep their entries in an ordered map keyed by the entry's End; every Set(k, e) of an *Entry must store it under its own End (Set(e.End, e) or Set(k, &Entry{End: k})), and the End of an *Entry is never assigned after construction (splitting moves Start and creates new entries), so an entry in the tree never sits under a stale key. RIK3: every append stored as an entry's value list in Intersect takes a clipped/cloned list. RIK4: Nesting.Insert's decision after Seek(end) is interpreted on a finite model (new, found, previous interval): accepted ⇒ left of or strictly nested in the found interval and clear of the previous one.",
 		NotDecided:  "the interval arithmetic of Insert (which pieces are created, their bounds, the value lists and their aliasing), Get's result, the nesting classification: all value-level; only the key invariant those rely on is decided",
 		Rules:       []func(*World){rikIntervalKeys, rik2NonEmptyPieces, rik3ValueListsNotShared, rik4NestingStrict},
 	})
@@ -148,11 +148,11 @@ func init() {
 		ID:          "C41",
 		Explanation: "RZ: every panic site in internal/toposort is classified; RZ2: the iterator returned by Sorter.Sort resets all of the Sorter's scratch state (state, stack, iterating) in a deferred function of its own; RZ3: no rune iteration over string keys in package trie (insert and lookup both walk bytes); the cycle panic in Sorter.push is reached from a state that depends only on the input graph, contradicting 'on cyclic input it still terminates and yields' (known finding).",
 		NotDecided:  "ordering of the yielded nodes; longest-prefix correctness of the trie",
-		Rules:       []func(*World){rzToposort, rz2SorterCleanup, rz3TrieByteKeys},
+		Rules:       []func(*World){rzToposort, rz2SorterCleanup, rz3TrieByteKeys, rz4SortSelfContained},
 	})
 	register(&Property{
 		ID:          "C20",
-		Explanation: "RN: the option-carrying element kinds (9) and the containment edges between them (12) are computed from the descriptorpb Go types; the options interpreter's traversal (call tree of interpretFileOptions) must follow every containment edge and instantiate its per-element handler for every options kind, and so must the linker's option-name resolution (resolveReferences + package walk) — no element kind can keep uninterpreted or unresolved options after success. RNC: every integer narrowing or sign-changing conversion in the option value coercion functions is dominated by range guards that make it value-preserving (branch-sensitive dataflow over comparisons with constants). RCF: every case-folding operation in the stable compiler is in a reviewed table (Protobuf is case-sensitive).",
+		Explanation: "RN: the option-carrying element kinds (9) and the containment edges between them (12) are computed from the descriptorpb Go types; the options interpreter's traversal (call tree of interpretFileOptions) must follow every containment edge and instantiate its per-element handler for every options kind, and so must the linker's option-name resolution (resolveReferences + package walk) — no element kind can keep uninterpreted or unresolved options after success. RNC: every integer narrowing or sign-changing conversion in the option value coercion functions is dominated by range guards that make it value-preserving (branch-sensitive dataflow over comparisons with constants). RCF: every case-folding operation in the stable compiler is in a reviewed table (Protobuf is case-sensitive). RO3: the in-place filter idiom (dst := src[:0]; append) is not applied to a parameter or a field of a message handed in.",
 		NotDecided:  "value conversion beyond range preservation, target checks, rejection parity with protoc",
 		Rules:       []func(*World){rnInterpreter, rnLinkerResolve, rncNarrowing, rnc2SingleRounding, rcfCaseFolding, ro3InPlaceFilterOnOwnedSlices},
 	})
@@ -170,7 +170,7 @@ func init() {
 	})
 	register(&Property{
 		ID:          "C23",
-		Explanation: "RX: sourceCodeInfo.locs is appended only by the three newLoc* primitives, each appending exactly one location (unconditional, no early return) whose Path is a copy of the path parameter and whose Span is makeSpan of the node's start/end; extraComments is read only in newLoc (both arms produce one location for the same path) and maybeDonate (creates none); extraOptionLocs only gates generateSourceInfoForOptionChildren in generateSourceCodeInfoForOption. RX4: in every `append(path, tags.T, idx)` the index variable serves a single tag (no index-space confusion) and is incremented after use in the same block.",
+		Explanation: "RX: sourceCodeInfo.locs is appended only by the three newLoc* primitives, each appending exactly one location (unconditional, no early return) whose Path is a copy of the path parameter and whose Span is makeSpan of the node's start/end; extraComments is read only in newLoc (both arms produce one location for the same path) and maybeDonate (creates none); extraOptionLocs only gates generateSourceInfoForOptionChildren in generateSourceCodeInfoForOption. RX4: in every `append(path, tags.T, idx)` the index variable serves a single tag (no index-space confusion) and is incremented after use in the same block. RX8: a path variable built by append(base, …) is not read after another append to the same un-cloned base.",
 		NotDecided:  "that each tag sequence is a valid path of the descriptor; span ranges; comment text",
 		Rules:       []func(*World){rxSourceInfo, rx5PathNeverRewritten, rx6CommentTextFromSource, rx7ReservedCommentsNotStolen, rx8PathAliasing},
 	})
@@ -194,19 +194,19 @@ func init() {
 	})
 	register(&Property{
 		ID:          "C25",
-		Explanation: "RP restricted to the parser's and the fast scanner's string decoders (same tables), plus modifier agreement: the import modifiers fastscan.Scan recognises equal the keyword alternatives of importDecl in parser/proto.y.",
+		Explanation: "RP restricted to the parser's and the fast scanner's string decoders (same tables), plus modifier agreement: the import modifiers fastscan.Scan recognises equal the keyword alternatives of importDecl in parser/proto.y. RP8: no bufio ReadSlice/ReadLine in the scanners without handling ErrBufferFull/isPrefix.",
 		NotDecided:  "statement boundary detection over arbitrary token streams; package name assembly",
 		Rules:       []func(*World){rpC25, rp3C25, rp5C25, rp6ScannerStateReset, rp8NoBoundedLineReads},
 	})
 	register(&Property{
 		ID:          "C26",
-		Explanation: "RP writer↔reader: every simple escape internal.EscapeBytes emits is decoded by linker.unescape to the same byte; the writer's octal form is exactly three digits and the reader consumes at most three; all octal digits introduce the octal branch in the reader; EscapeBytes reads its input only through len(data)/data[i] (a per-byte map, so table agreement covers every input).",
+		Explanation: "RP writer↔reader: every simple escape internal.EscapeBytes emits is decoded by linker.unescape to the same byte; the writer's octal form is exactly three digits and the reader consumes at most three; all octal digits introduce the octal branch in the reader; EscapeBytes reads its input only through len(data)/data[i] (a per-byte map, so table agreement covers every input). RP7: linker.unescape's pass-through guard, evaluated on (length, backslash position) points, holds exactly for a lone trailing backslash.",
 		NotDecided:  "protobuf-go's own unescaper (quick tier); strconv/utf8 are trusted",
 		Rules:       []func(*World){rpC26, rp7UnescapeShortGuard},
 	})
 	register(&Property{
 		ID:          "C11",
-		Explanation: "RR: productions are read from parser/proto.y and the compiled actions from the `switch protont` of parser/proto.y.go; symbol counts are cross-checked between both files; for every production without the `error` token the compiled action references all of its right-hand-side values protoDollar[1..K]. RR2: every exported ast.New*Node constructor of a composite node places each Node-typed parameter (or each element of a slice parameter) among the node's children. Together: every token the lexer hands to the parser is reachable by ast.Walk.",
+		Explanation: "RR: productions are read from parser/proto.y and the compiled actions from the `switch protont` of parser/proto.y.go; symbol counts are cross-checked between both files; for every production without the `error` token the compiled action references all of its right-hand-side values protoDollar[1..K]. RR2: every exported ast.New*Node constructor of a composite node places each Node-typed parameter (or each element of a slice parameter) among the node's children. Together: every token the lexer hands to the parser is reachable by ast.Walk. RR6: the trivia accessors of ast/file_info.go return the constant \"\" only for a dummy file. RX9: no in-place slices operation on a slice handed out by a method of package ast in the packages that consume ASTs.",
 		NotDecided:  "that the lexer's items tile the input (whitespace/comment spans are arithmetic), BOM handling, correctness of leading-whitespace offsets, order of children",
 		Rules:       []func(*World){rrGrammar, rr2Constructors, rr3SameBuffer, rr4OwnedSourceBytes, rr5PairedAccumulators, rr6TriviaNeverDropped, rx9ASTNotMutated},
 	})
